@@ -63,6 +63,10 @@ JUNK_LINES = ["free text", "", "{t} = N 8 0", "{t} = S 64 10", "{t} = E two word
 # planning
 # ----------------------------------------------------------------------------------------------
 
+def _family(section: str) -> str:
+    return {"SyncTrack": "sync", "Events": "events", "Song": "song"}.get(section, "instrument")
+
+
 def _gen_selection(r: Any, headers: list[str]) -> Any:
     x = r.random()
     if x < 0.6:
@@ -90,6 +94,8 @@ def make_plan(seed: int, tier: str, index: int) -> dict[str, Any]:
     for i in range(n_ok):
         d = gen.gen_doc(g, resolutions=resolutions, thresholds_for=resolutions, max_tracks=3,
                         small=True)
+        if g.random() < 0.06:
+            gen.add_far_events(g, d)
         if big_run and i == 0 and d["tracks"]:
             # one chart of a few thousand lines (sizes, counts and depths that the small texts
             # never reach); such runs have one client
@@ -114,6 +120,14 @@ def make_plan(seed: int, tier: str, index: int) -> dict[str, Any]:
                 if secs[si][0] in [u[0] for u in d["unknown"]]:
                     continue
                 line = g.choice(JUNK_LINES).replace("{t}", str(g.choice([0, 7, 480, 99999])))
+                if g.random() < 0.4:
+                    # a line that is VALID in another section kind of this or an earlier chart of
+                    # the corpus, pasted here verbatim (a memo keyed by the text alone would
+                    # carry the verdict from one section kind to the other)
+                    pool_secs = [sx for dd in docs + [d] for sx in gen.sections(dd)[1:]
+                                 if sx[1] and _family(sx[0]) != _family(secs[si][0])]
+                    if pool_secs:
+                        line = g.choice(g.choice(pool_secs)[1])
                 secs[si][1].insert(g.randint(0, len(secs[si][1])), line)
             text = gen.render_sections(secs, newline=nl)
         else:
